@@ -17,7 +17,8 @@
   and (expressions without take_until) the delivered elements are always a prefix of the specified
   sequence, wherever a stop request arrives.
 
-  Part C — what the model says about take_until's cleanup operation objects (DESIGN §8 #6).
+  Part C — take_until's cleanup operation objects: each is destructed exactly once (regression of DESIGN §8 #6,
+  fixed in /repo: `trigger_receiver::set_done` destructs `triggerOp_`).
 -/
 import UnifexModel.Calc.StreamLemmas
 import UnifexModel.Calc.StreamSafetyRoot
@@ -283,34 +284,47 @@ theorem stop_immediately_abandons_then_awaits (rec : Rec) (c : Op) (st : StopImm
   refine ⟨fun h1 h2 => by simp [stopImmStep, h1, h2], fun h1 h2 => by simp [stopImmStep, h1, h2],
     fun outs o h => by simp [siOnChild, h]⟩
 
-/-! ## Part C — take_until's cleanup destructs the wrong operation (DESIGN §8 #6, as the code does) -/
+/-! ## Part C — take_until's cleanup operation objects (`sourceOp_`, `triggerOp_`) are each constructed once
+     and destructed once (the history variables of the model follow take_until.hpp; regression of DESIGN §8 #6) -/
 
 /-- the take_until state of a tree rooted at take_until -/
 def takeSt : Op → Option TakeSt
   | .takeUntil _ _ st => some st
   | _ => none
 
-/-- **Witness**: take_until over two manual sources, one next(), the trigger fires, cleanup: when
-    cleanup(trigger) completes with done the model — like take_until.hpp `trigger_receiver::set_done` —
-    destructs `sourceOp_` a second time and never destructs `triggerOp_`. -/
-theorem take_until_destructs_source_op_twice :
+/-- source_receiver destructs `sourceOp_` only, trigger_receiver destructs `triggerOp_` only (done or error) -/
+theorem take_until_receivers_destruct_their_own_op (x : TU) (e : Option Nat) :
+    ((tuJoinSrc x e).st.srcOpDtor = x.st.srcOpDtor + 1 ∧ (tuJoinSrc x e).st.trigOpDtor = x.st.trigOpDtor) ∧
+    ((tuJoinTrig x e).st.trigOpDtor = x.st.trigOpDtor + 1 ∧ (tuJoinTrig x e).st.srcOpDtor = x.st.srcOpDtor) := by
+  simp only [tuJoinSrc, tuJoinTrig, tuJoin]
+  refine ⟨⟨?_, ?_⟩, ⟨?_, ?_⟩⟩ <;> split <;> rfl
+
+/-- take_until over two manual sources, one next(), the trigger fires, cleanup (source cleanup inline):
+    both cleanup operations constructed once and destructed once, result delivered -/
+theorem take_until_cleanup_ops_balanced :
     let specs : Nat → SrcSpec := fun i =>
       if i = 1 then ⟨[.inl (.value 3), .pend (.value 4) .completeDone], .inl none⟩
       else ⟨[.pend (.value 0) .ignore], .inl none⟩
     let rt := (runEvents specs (Root.init ⟨.reduce, 0, 10, none⟩ (.takeUntil (.src 1) (.src 2)))
       [.start, .compNext 2]).1
     rt.result = some (.value 3) ∧
-    (takeSt rt.op).map (fun st => (st.srcOpCtor, st.srcOpDtor, st.trigOpCtor, st.trigOpDtor)) = some (1, 2, 1, 0) := by
+    (takeSt rt.op).map (fun st => (st.srcOpCtor, st.srcOpDtor, st.trigOpCtor, st.trigOpDtor)) = some (1, 1, 1, 1) := by
   decide +kernel
 
-/-- and when cleanup(source) is still pending at that moment the running `sourceOp_` is destructed -/
-theorem take_until_destructs_running_source_op :
+/-- the same with cleanup(source) still pending when cleanup(trigger) completes: `sourceOp_` is left alone
+    until its own completion -/
+theorem take_until_cleanup_ops_balanced_pending :
     let specs : Nat → SrcSpec := fun i =>
       if i = 1 then ⟨[.inl (.value 3), .pend (.value 4) .completeDone], .pend none⟩
       else ⟨[.pend (.value 0) .ignore], .inl none⟩
-    let rt := (runEvents specs (Root.init ⟨.reduce, 0, 10, none⟩ (.takeUntil (.src 1) (.src 2)))
+    let rt1 := (runEvents specs (Root.init ⟨.reduce, 0, 10, none⟩ (.takeUntil (.src 1) (.src 2)))
       [.start, .compNext 2]).1
-    (takeSt rt.op).map (fun st => st.dtorRunning) = some true := by
+    let rt2 := (runEvents specs (Root.init ⟨.reduce, 0, 10, none⟩ (.takeUntil (.src 1) (.src 2)))
+      [.start, .compNext 2, .compClean 1]).1
+    (takeSt rt1.op).map (fun st => (st.srcOpCtor, st.srcOpDtor, st.trigOpCtor, st.trigOpDtor)) = some (1, 0, 1, 1) ∧
+    rt1.result = none ∧
+    (takeSt rt2.op).map (fun st => (st.srcOpCtor, st.srcOpDtor, st.trigOpCtor, st.trigOpDtor)) = some (1, 1, 1, 1) ∧
+    rt2.result = some (.value 3) := by
   decide +kernel
 
 /-! ## non-vacuity -/
